@@ -21,6 +21,7 @@
 #include "corecel/sys/ScopedProfiling.hh"
 #include "corecel/sys/Stopwatch.hh"
 #include "corecel/sys/Stream.hh"
+#include "corecel/sys/VerifHook.hh"
 #include "celeritas/track/StatusChecker.hh"
 
 #include "ActionInterface.hh"
@@ -66,6 +67,7 @@ void ActionSequence::begin_run(CoreParams const& params, CoreState<M>& state)
     for (auto const& sp_action : actions_.begin_run())
     {
         ScopedProfiling profile_this{sp_action->label()};
+        CELER_VERIF_YIELD("ActionSequence::begin_run:action");
         sp_action->begin_run(params, state);
     }
 }
@@ -105,6 +107,7 @@ void ActionSequence::step(CoreParams const& params, CoreState<M>& state)
                 !skip_post_action(action))
             {
                 ScopedProfiling profile_this{action.label()};
+                CELER_VERIF_YIELD("ActionSequence::step:action");
                 Stopwatch get_time;
                 action.step(params, state);
                 if constexpr (M == MemSpace::device)
@@ -127,6 +130,7 @@ void ActionSequence::step(CoreParams const& params, CoreState<M>& state)
             if (auto const& action = *sp_action; !skip_post_action(action))
             {
                 ScopedProfiling profile_this{action.label()};
+                CELER_VERIF_YIELD("ActionSequence::step:action");
                 action.step(params, state);
                 if (CELER_UNLIKELY(status_checker_))
                 {
